@@ -349,8 +349,9 @@ def run_shards(prop, tier, seed, nshards, watchdog_s, only=None, env_extra=None,
                     "case": {"shard": r["shard"], "nshards": nshards, "index": li["i"], "desc": li.get("desc")},
                 })
                 # partial observations of the dead worker are lost; restart after the crashing case
-                running.append(_spawn(prop, tier, seed, r["shard"], nshards, workdir, resume_after=li["i"],
-                                      attempt=r["attempt"] + 1, env_extra=env_extra, pyflags=pyflags))
+                if only is None:
+                    running.append(_spawn(prop, tier, seed, r["shard"], nshards, workdir, resume_after=li["i"],
+                                          attempt=r["attempt"] + 1, env_extra=env_extra, pyflags=pyflags))
     finally:
         for r in running:
             try:
